@@ -38,11 +38,13 @@ func (bla *BucketLeapArray) NewEmptyBucket() interface{} {
 }
 
 func (bla *BucketLeapArray) ResetBucketTo(bw *BucketWrap, startTime uint64) *BucketWrap {
-	vhook.Yield("la.setstart")
-	atomic.StoreUint64(&bw.BucketStart, startTime)
+	// Clear the counters before publishing the new start time: a concurrent reader that
+	// already sees the new start must never find the data of the expired bucket.
 	mb := bw.Value.Load().(*MetricBucket)
 	vhook.Yield("la.reset")
 	mb.reset()
+	vhook.Yield("la.setstart")
+	atomic.StoreUint64(&bw.BucketStart, startTime)
 	return bw
 }
 
